@@ -137,21 +137,19 @@ Proof. vm_compute. intuition. Qed.
 Theorem C11_apply_to_file_positions_are_source :
   forall H A L W tsw c since pos0,
   try_of (calls_only_list tk_apply_to_file) = [expected_apply_try] /\
-  apply_seek_sites = expected_seek_sites /\
   ap_interp apply_seek_sites (lenZ c) pos0 (run H A L W tsw c since pos0)
-            true (try_of (calls_only_list tk_apply_to_file))
+            true apply_body_test (try_of (calls_only_list tk_apply_to_file))
   = apply_to_file H A L W tsw c since pos0 /\
   ap_interp apply_seek_sites (lenZ c) pos0 (run H A L W tsw c since pos0)
-            false (try_of (calls_only_list tk_apply_to_file))
+            false apply_body_test (try_of (calls_only_list tk_apply_to_file))
   = apply_to_file_nd H A L W tsw c since pos0.
 Proof.
   intros.
   assert (E1 : try_of (calls_only_list tk_apply_to_file) = [expected_apply_try])
     by (vm_compute; reflexivity).
-  assert (E2 : apply_seek_sites = expected_seek_sites) by reflexivity.
-  rewrite E1, E2. repeat split.
-  - apply ap_interp_correct.
-  - apply ap_interp_correct_nd.
+  rewrite E1. unfold apply_to_file, apply_to_file_nd. split; [reflexivity|].
+  split; destruct (run H A L W tsw c since pos0); cbn; rewrite ?Z.add_0_r;
+    reflexivity.
 Qed.
 
 Print Assumptions C11_find_token_loop_is_source.
